@@ -130,9 +130,12 @@ Proofs/FloatToInt.vos Proofs/FloatToInt.vok Proofs/FloatToInt.required_vos: Proo
 Proofs/FloatCompare.vo Proofs/FloatCompare.glob Proofs/FloatCompare.v.beautified Proofs/FloatCompare.required_vo: Proofs/FloatCompare.v Model/GoInt.vo Model/F64.vo Model/Num.vo Gen/Arith_gen.vo Proofs/FloatToInt.vo
 Proofs/FloatCompare.vio: Proofs/FloatCompare.v Model/GoInt.vio Model/F64.vio Model/Num.vio Gen/Arith_gen.vio Proofs/FloatToInt.vio
 Proofs/FloatCompare.vos Proofs/FloatCompare.vok Proofs/FloatCompare.required_vos: Proofs/FloatCompare.v Model/GoInt.vos Model/F64.vos Model/Num.vos Gen/Arith_gen.vos Proofs/FloatToInt.vos
-Props/C07.vo Props/C07.glob Props/C07.v.beautified Props/C07.required_vo: Props/C07.v Model/GoInt.vo Model/F64.vo Model/Num.vo Gen/Arith_gen.vo Proofs/ArithInt.vo Proofs/FloatKernels.vo Proofs/FloatToInt.vo Proofs/FloatCompare.vo
-Props/C07.vio: Props/C07.v Model/GoInt.vio Model/F64.vio Model/Num.vio Gen/Arith_gen.vio Proofs/ArithInt.vio Proofs/FloatKernels.vio Proofs/FloatToInt.vio Proofs/FloatCompare.vio
-Props/C07.vos Props/C07.vok Props/C07.required_vos: Props/C07.v Model/GoInt.vos Model/F64.vos Model/Num.vos Gen/Arith_gen.vos Proofs/ArithInt.vos Proofs/FloatKernels.vos Proofs/FloatToInt.vos Proofs/FloatCompare.vos
+Proofs/FloatIntPart.vo Proofs/FloatIntPart.glob Proofs/FloatIntPart.v.beautified Proofs/FloatIntPart.required_vo: Proofs/FloatIntPart.v Model/GoInt.vo Model/F64.vo Model/Num.vo Gen/Arith_gen.vo Proofs/FloatToInt.vo Proofs/FloatCompare.vo
+Proofs/FloatIntPart.vio: Proofs/FloatIntPart.v Model/GoInt.vio Model/F64.vio Model/Num.vio Gen/Arith_gen.vio Proofs/FloatToInt.vio Proofs/FloatCompare.vio
+Proofs/FloatIntPart.vos Proofs/FloatIntPart.vok Proofs/FloatIntPart.required_vos: Proofs/FloatIntPart.v Model/GoInt.vos Model/F64.vos Model/Num.vos Gen/Arith_gen.vos Proofs/FloatToInt.vos Proofs/FloatCompare.vos
+Props/C07.vo Props/C07.glob Props/C07.v.beautified Props/C07.required_vo: Props/C07.v Model/GoInt.vo Model/F64.vo Model/Num.vo Gen/Arith_gen.vo Proofs/ArithInt.vo Proofs/FloatKernels.vo Proofs/FloatToInt.vo Proofs/FloatCompare.vo Proofs/FloatIntPart.vo
+Props/C07.vio: Props/C07.v Model/GoInt.vio Model/F64.vio Model/Num.vio Gen/Arith_gen.vio Proofs/ArithInt.vio Proofs/FloatKernels.vio Proofs/FloatToInt.vio Proofs/FloatCompare.vio Proofs/FloatIntPart.vio
+Props/C07.vos Props/C07.vok Props/C07.required_vos: Props/C07.v Model/GoInt.vos Model/F64.vos Model/Num.vos Gen/Arith_gen.vos Proofs/ArithInt.vos Proofs/FloatKernels.vos Proofs/FloatToInt.vos Proofs/FloatCompare.vos Proofs/FloatIntPart.vos
 Proofs/Promise.vo Proofs/Promise.glob Proofs/Promise.v.beautified Proofs/Promise.required_vo: Proofs/Promise.v Model/Term.vo Model/Unify.vo Model/Clause.vo Model/Machine.vo
 Proofs/Promise.vio: Proofs/Promise.v Model/Term.vio Model/Unify.vio Model/Clause.vio Model/Machine.vio
 Proofs/Promise.vos Proofs/Promise.vok Proofs/Promise.required_vos: Proofs/Promise.v Model/Term.vos Model/Unify.vos Model/Clause.vos Model/Machine.vos
